@@ -52,3 +52,10 @@ Section Spec.
     | e :: l => match lrun l with Some s => lstep s e | None => None end
     end.
 End Spec.
+
+(* arrival times of the peer's items never decrease *)
+Fixpoint nondecr (o : speer) : Prop :=
+  match o with
+  | [] => True
+  | it :: o' => Forall (fun it' => sitem_at it <= sitem_at it') o' /\ nondecr o'
+  end.
